@@ -11,7 +11,7 @@ def sh(cmd, cwd, check=True):
     return p
 # ---- repo: cherry-pick the branch's own commits (oldest first)
 base = sh(["git", "merge-base", "main", br], "/repo").stdout.strip()
-commits = sh(["git", "log", "--reverse", "--format=%H %s", base + ".." + br], "/repo").stdout.strip().splitlines()
+commits = sh(["git", "log", "--reverse", "--no-merges", "--format=%H %s", base + ".." + br], "/repo").stdout.strip().splitlines()
 mainlog = sh(["git", "log", "--format=%s", "main"], "/repo").stdout.splitlines()
 hookhashes = []
 for c in commits:
